@@ -53,6 +53,9 @@ var (
 	Failed       []string
 	Reached      = map[string]bool{}
 	budgets      = map[string]int{}
+	faulted      = map[string]int{}
+	faultCap     int
+	faultCapSet  bool
 	OnAssumeFail func()
 )
 
